@@ -1,6 +1,7 @@
 import XpmVerif.Basic.JsonUtil
 import XpmVerif.Basic.Sha256
 import XpmVerif.Model.IdentImpl
+import XpmVerif.Model.Deps
 import XpmVerif.Generated.HashFlags
 /-! Line-protocol driver for M1 (identifiers, sealing): C01 C02 C03 C14 C20. -/
 open Lean XpmVerif XpmVerif.J XpmVerif.Ident
@@ -81,6 +82,12 @@ def stepJ (s : St D) (j : Json) : St D × Json :=
   | "addpre" => run (.addPretask (natF j "n") (natF j "p"))
   | "spec" =>   -- cache-free specification of the full identifier
     (s, Json.mkObj [("id", hexOf (fullId hc s.g (natF j "n")))])
+  | "deps" =>   -- dependencies collected when node n is submitted (its own `task` field is still unset)
+    let n := natF j "n"
+    let g' := setNode s.g n (fun nd => { nd with task := none })
+    let explicit := (arrF j "explicit").map nat
+    let all := (collectDeps g' n ++ explicit).eraseDups
+    (s, Json.mkObj [("deps", Json.arr ((all.toArray.qsort (· < ·)).map (fun (k : Nat) => (k : Json))))])
   | "sealed" => (s, Json.mkObj [("sealed", Json.arr ((s.g.nodes.map (fun nd => (nd.sealed : Json))).toArray))])
   | op => (s, Json.mkObj [("error", Json.str s!"bad-op {op}")])
 
